@@ -149,12 +149,15 @@ class World:
         o['x_confVal'] = ConfVal()
         o['x_confNone'] = ConfNone()
         o['x_confRaise'] = ConfRaise()
+        ci = Other()
+        ci.__conform__ = lambda iface: ('instance-conformed', iface.__name__)
+        o['x_confInst'] = ci
         o['x_slots'] = Slots()
         po = Other()
         po.__provides__ = Provides(K3, I2)     # a declaration made for K3
         o['x_provOther'] = po
         for k in ('x_pbAttrErr', 'x_pbValErr', 'x_confVal', 'x_confNone',
-                  'x_confRaise', 'x_slots', 'x_provOther', 'x_func',
+                  'x_confRaise', 'x_confInst', 'x_slots', 'x_provOther', 'x_func',
                   'x_named', 'x_nameonly'):
             self.names[id(o[k])] = (k, o[k])
         for k in ('I2twin', 'I2dupmod', 'I1', 'I2', 'I3', 'I4', 'K1', 'K2', 'K3', 'o1', 'o2', 'o3'):
@@ -431,6 +434,23 @@ class World:
             if op == 'queryMultiOf':
                 return g.queryMultiAdapter(objs, P, nm, *d)
             return g.subscribers(objs, P)
+        if op in ('queryAdapterKw', 'adapterHookKw', 'queryMulti1Kw',
+                  'lookupKw', 'lookup1Kw'):
+            P = o[a['prov']]
+            nm = self.name(a['name'])
+            x = o[a['x']]
+            kw = {} if a['default'] == 'nodefault' else {'default': DEFAULT}
+            if op == 'queryAdapterKw':
+                return g.queryAdapter(object=x, provided=P, name=nm, **kw)
+            if op == 'adapterHookKw':
+                return g.adapter_hook(provided=P, object=x, name=nm, **kw)
+            if op == 'queryMulti1Kw':
+                return g.queryMultiAdapter(objects=(x,), provided=P, name=nm,
+                                           **kw)
+            spec = providedBy(x)
+            if op == 'lookupKw':
+                return g.lookup(required=(spec,), provided=P, name=nm, **kw)
+            return g.lookup1(required=spec, provided=P, name=nm, **kw)
         if op in ('queryAdapter', 'adapter_hook', 'queryMulti1',
                   'subscribers1'):
             P = o[a['prov']]
